@@ -6,6 +6,7 @@
 
    Full:     C16_gauss_subset_order, C16_gauss_unsorted_rejected, C16_gauss_displacement_order,
              C16_gauss_photon, C16_gauss_quad_photon, C16_fock_prob_all_probs, C16_fock_trace,
+             C16_fock_marginals, C16_fock_mean_photon_marginal, C16_fock_reduced_labels_single,
              C16_gauss_parity_subset, C16_gauss_parity_order (model of the code after fix 5603fbf).
    Partial:  the statements kept as `Definition ..._statement` below are not proved in Coq; they
              are validated on every run by exact correspondence (einsum subscripts captured from
@@ -105,6 +106,29 @@ Theorem C16_fock_trace :
 Proof. exact trace_is_sum_probs. Qed.
 Print Assumptions C16_fock_trace.
 
+(* Fock representation: the diagonal of reduced_dm([k]) — computed through the einsum subscripts the
+   list.insert loop builds — is the k-th marginal of all_fock_probs(), and mean_photon(k) is the
+   first moment of that marginal: for every number of modes N, mode k < N, cutoff D, tensor s. *)
+Theorem C16_fock_marginals :
+  forall (K : Type) (k0 : K) (kadd : K -> K -> K) (D N : nat) (s : tensor K) (k : nat) (r : tensor K),
+    k < N -> reduced_dm K k0 kadd D N s [k] = Ok r ->
+    forall j, j < D -> r [j; j] = marginal K k0 kadd D N (all_fock_probs_mixed K D N s) k j.
+Proof. exact fock_marginal. Qed.
+Print Assumptions C16_fock_marginals.
+
+Theorem C16_fock_mean_photon_marginal :
+  forall (K : Type) (k0 : K) (kadd kmul : K -> K -> K) (of_nat : nat -> K) (D N : nat) (s : tensor K) (k : nat) (mp : K),
+    k < N -> mean_photon_fock K k0 kadd kmul of_nat D N s k = Ok mp ->
+    mp = sumn K k0 kadd D (fun j => kmul (of_nat j) (marginal K k0 kadd D N (all_fock_probs_mixed K D N s) k j)).
+Proof. exact fock_mean_photon_marginal. Qed.
+Print Assumptions C16_fock_mean_photon_marginal.
+
+(* the subscripts themselves, single requested mode: pair (0,1) at position k, every other mode its own repeated label *)
+Theorem C16_fock_reduced_labels_single :
+  forall N k, k < N -> red_labels N [k] = insert_at k (0, 1) (map (fun t => (t, t)) (seq 2 (N - 1))).
+Proof. exact red_labels_single. Qed.
+Print Assumptions C16_fock_reduced_labels_single.
+
 (* BaseGaussianState.parity_expectation(modes) (code after fix 5603fbf): for every ascending,
    duplicate-free, in-range list it is the Gaussian parity formula on the reduced state of exactly
    those modes, for every register size; and listing the modes in another order changes nothing. *)
@@ -135,6 +159,8 @@ Example C16_reduced_ok_inhabited :
 Proof. reflexivity. Qed.
 Example C16_parity_hyp_inhabited : sorted_lt [0; 2] = true /\ sort_nat [2; 0] = sort_nat [0; 2].
 Proof. split; reflexivity. Qed.
+Example C16_reduced_dm_inhabited : exists r, reduced_dm nat 0 Nat.add 2 3 (fun idx => flatten 2 idx) [1] = Ok r /\ r [1; 1] = 150.
+Proof. eexists. split; reflexivity. Qed.
 Example C16_fock_prob_inhabited : fock_prob nat 3 2 (fun idx => flatten 3 idx) [1; 2] = Ok 44.
 Proof. reflexivity. Qed.
 (* the duplicate check of reduced_gaussian / reduced_dm is ineffective: [1;1] is accepted *)
@@ -150,11 +176,6 @@ Definition C16_fock_reduced_labels_statement : Prop :=
   forall (N : nat) (modes : list nat),
     sorted_le modes = true -> has_dup modes = false -> (forall m, In m modes -> m < N) ->
     red_labels N modes = red_labels_spec N modes.
-(* diag(reduced_dm([k])) is the k-th marginal of all_fock_probs, and mean_photon(k) its first moment *)
-Definition C16_fock_marginals_statement : Prop :=
-  forall (K : Type) (k0 : K) (kadd kmul : K -> K -> K) (of_nat : nat -> K) (D N : nat) (s : tensor K) (k : nat) r,
-    k < N -> reduced_dm K k0 kadd D N s [k] = Ok r ->
-    (forall j, j < D -> r [j; j] = marginal K k0 kadd D N (all_fock_probs_mixed K D N s) k j).
 (* diagonal_expectation(modes, v) = sum_n prod_{m in modes} v(n_m) p(n)  (parity: v = (-1)^n) *)
 Definition C16_fock_parity_statement : Prop :=
   forall (K : Type) (k0 k1 : K) (kadd kmul : K -> K -> K),
